@@ -256,7 +256,7 @@ pub fn isochronous_column(column: usize, first_row: usize, t0: usize, scale: f64
         if row >= 576 {
             break;
         }
-        let x = scale * if j % 2 == 0 { 300.0 } else { 600.0 + 25.0 * (j / 2) as f64 };
+        let x = scale * if j % 2 == 0 { 300.0 } else { 600.0 + 25.0 * ((j / 2) % 9) as f64 };
         let v: Vec<f64> = (0..samples).map(|n| if n >= t0 + 1 { x * d.pad_resp.get(n - t0 - 1).copied().unwrap_or(0.0) } else { 0.0 }).collect();
         pads.insert((column % 32, row), v);
     }
